@@ -398,6 +398,44 @@ Section Model.
     end.
 End Model.
 
+(* ---------------------------------------------------------------------- grid_2d_util.relocated_grid_via_jit_from and
+   BorderRelocator.relocated_grid_from (C18 owns the relocation law; here: its behaviour under a common translation) *)
+Section Reloc.
+  Context {O : NumOps}.
+  Notation T := (T O).
+  Definition meanT (l : list T) : T := div O (sumT l) (ofNat (length l)).                       (* np.mean *)
+  Definition radius (bo p : @pt O) : T :=
+    sqrtT O (add O (sq (sub O (fst p) (fst bo))) (sq (sub O (snd p) (snd bo)))).
+  Definition dist2 (p b : @pt O) : T := add O (sq (sub O (fst p) (fst b))) (sq (sub O (snd p) (snd b))).
+  (* np.argmin: first index of the minimum *)
+  Fixpoint argmin_from (l : list T) (i best : nat) (bv : T) : nat :=
+    match l with
+    | [] => best
+    | v :: t => if ltb O v bv then argmin_from t (S i) i v else argmin_from t (S i) best bv
+    end.
+  Definition argmin (l : list T) : nat := match l with [] => 0%nat | v :: t => argmin_from t 1 0 v end.
+  Definition relocate (g bg : list (@pt O)) : list (@pt O) :=
+    let bo := (meanT (map fst bg), meanT (map snd bg)) in
+    let brad := map (radius bo) bg in
+    match brad with
+    | [] => g          (* BorderRelocator.relocated_grid_from returns the grid itself when the border is empty *)
+    | r0 :: rt =>
+        let bmin := minl r0 rt in
+        map (fun p =>
+          let r := radius bo p in
+          if ltb O bmin r then
+            let c := argmin (map (dist2 p) bg) in
+            let mf := div O (nth c brad zero) r in
+            if ltb O mf one then
+              (add O (mul O mf (sub O (fst p) (fst bo))) (fst bo), add O (mul O mf (sub O (snd p) (snd bo))) (snd bo))
+            else p
+          else p) g
+    end.
+  (* BorderRelocator.relocated_grid_from(grid): border_grid = grid[sub_border_slim] *)
+  Definition relocated_grid_from (sub_border_slim : list nat) (g : list (@pt O)) : list (@pt O) :=
+    relocate g (gather zpt g sub_border_slim).
+End Reloc.
+
 (* ====================================================================== correspondence cases (exact rationals) *)
 Definition qpt : Type := @pt QOps.
 Definition qpt_eqb (a b : qpt) : bool := Qeq_bool (fst a) (fst b) && Qeq_bool (snd a) (snd b).
@@ -512,6 +550,9 @@ Definition dop_spec (op : dop) (data noise arg : QM) : geom * geom :=
   | DSimulate p => (geom_of data, geom_of (if p then noise else data))
   end.
 
+Definition tol9 : Q := 1 # 1000000000.
+Definition qpt_close (tol : Q) (a b : qpt) : bool := Qabs_le_tol tol (fst a) (fst b) && Qabs_le_tol tol (snd a) (snd b).
+
 Inductive obs :=
 | KGrid (op : gop) (M : QM) (out : res (list qpt))
 | KGeom (op : mop) (M : QM) (out : option geom)
@@ -522,7 +563,8 @@ Inductive obs :=
 | KPixelIndexes (M : QM) (pts : list qpt) (out : list Z)           (* Geometry2D.grid_pixel_indexes_2d_from *)
 | KPixelFloats (M : QM) (pts : list qpt) (out : list qpt)          (* Geometry2D.grid_pixels_2d_from *)
 | KRect (sy sx : Z) (g : list qpt) (buffer : Q) (out_ps out_org : qpt) (out_mesh : list qpt) (out_map : list Z)
-| KDataset (op : dop) (data noise arg : QM) (out : geom * geom).
+| KDataset (op : dop) (data noise arg : QM) (out : geom * geom)
+| KReloc (idx : list nat) (g : list qpt) (out : list qpt).        (* BorderRelocator.relocated_grid_from; tolerance 1e-9 *)
 
 Definition agree1 (k : obs) : bool :=
   match k with
@@ -541,6 +583,7 @@ Definition agree1 (k : obs) : bool :=
       | None => false
       end
   | KDataset op d n a out => prod_eqb geom_eqb geom_eqb (dop_model op d n a) out
+  | KReloc idx g out => list_eqb (qpt_close tol9) (@relocated_grid_from QOps idx g) out
   end.
 
 (* the origin-free closed forms accept the implementation's output (single origin) *)
@@ -560,6 +603,7 @@ Definition rel_ok1 (k : obs) : bool :=
       option_eqb (list_eqb Z.eqb) (@rel_rect_mapper QOps sy sx g b) (Some omap)
       && qg_eqb (shift oorg (rel_grid (all_false sy sx) ops)) omesh
   | KDataset op d n a out => prod_eqb geom_eqb geom_eqb (dop_spec op d n a) out
+  | KReloc idx g out => true
   end.
 
 
@@ -620,6 +664,8 @@ Definition spec_ok (k : case) : bool :=
   | KDataset op da na aa out, KDataset op' da' na' aa' out' =>
       M_translated d da da' && M_translated d na na' && M_translated d aa aa'
       && prod_eqb geom_eqb geom_eqb (geom_shift d (fst out), geom_shift d (snd out)) out'
+  | KReloc idx g out, KReloc idx' g' out' =>
+      list_eqb Nat.eqb idx idx' && pts_translated d g g' && list_eqb (qpt_close (2 * tol9)) (@shift QOps d out) out'
   | _, _ => false
   end.
 
